@@ -77,6 +77,171 @@ def behaviours(ctx, key, num, depth=160):
     return out, r
 
 
+# ------------------------------------------------------------------ conducted replay
+# instances of spec/Producer.tla in hook normal form (spec/MCProducer.tla, ConductSpec) that record EVERY action
+CONDUCT = {
+    "conduct.p1": ("MCProducer.conduct.p1.cfg", dict(idem=False, retryMax=2, leaders=[1], nbrokers=1), 4),
+    "conduct.p2b1": ("MCProducer.conduct.p2b1.cfg", dict(idem=False, retryMax=2, leaders=[1, 1], nbrokers=1), 4),
+    "conduct.p2": ("MCProducer.conduct.p2.cfg", dict(idem=False, retryMax=2, leaders=[1, 2], nbrokers=2), 4),
+    "conduct.idem": ("MCProducer.conduct.idem.cfg", dict(idem=True, retryMax=1, leaders=[1, 1], nbrokers=1), 3),
+    "conduct.idem1": ("MCProducer.conduct.idem1.cfg", dict(idem=True, retryMax=2, leaders=[1], nbrokers=1), 3),
+}
+
+
+def conduct_steps(hist):
+    """one behaviour (every action of the model, in order) -> (conductor steps, broker plans, features).
+    Steps without a hook (partition worker start-up and its queued sub-steps, second visit of a worker to a message
+    after an epoch roll-over) are dropped: the real goroutines take them by themselves as soon as they can, which
+    is where the hook normal form of the generator puts them."""
+    steps, plans = [], {}
+    nreq = 0
+    outstanding = {}      # model broker-worker index -> number of its request at the cluster
+    skip_recv = set()     # (bp, id, part, retries, flag): the same message again after a roll-over
+    last_flush = {}
+    feat = dict(bounces=0, parked=0, late_fin=0, jumps=0, maxhwm=0, faults=0, parts=set(), sends=0, multi=0)
+    for h in hist:
+        a = h["a"]
+        if a == "submit":
+            steps.append({"k": "submit", "id": h["id"], "part": PIDX[h["part"]]})
+            feat["parts"].add(h["part"])
+        elif a in ("disp", "rhdeq", "pprecv"):
+            st = {"k": a, "id": h["id"], "part": PIDX[h["part"]], "retries": h["retries"], "flag": h["flag"]}
+            steps.append(st)
+            if a == "pprecv":
+                last_flush.pop(h["part"], None)
+                hw = h["hwm"]
+                feat["maxhwm"] = max(feat["maxhwm"], hw, h["retries"])
+                if h["retries"] < hw:
+                    feat["late_fin" if h["flag"] == "fin" else "parked"] += 1
+                if h["retries"] > hw + 1:
+                    feat["jumps"] += 1
+        elif a == "ppstep":
+            if h["op"] == "flush":
+                if last_flush.get(h["part"]) != h["level"]:       # (a level is visited twice when a worker must be found first)
+                    steps.append({"k": "ppflush", "part": PIDX[h["part"]], "level": h["level"]})
+                last_flush[h["part"]] = h["level"]
+        elif a == "bprecv":
+            key = (h["bp"], h["id"], h["part"], h["retries"], h["flag"])
+            if key in skip_recv:
+                skip_recv.discard(key)
+                continue
+            steps.append({"k": "bprecv", "id": h["id"], "part": PIDX[h["part"]], "retries": h["retries"], "flag": h["flag"],
+                          "broker": BIDX[h["broker"]]})
+            if h["roll"]:
+                # the worker forces its buffer out and then takes the message: one hook, one more request
+                nreq += 1
+                outstanding[h["bp"]] = nreq
+                steps.append({"k": "bpsend", "broker": BIDX[h["broker"]], "req": nreq,
+                              "ids": {str(PIDX[p]): v for p, v in h["ids"].items() if v}})
+                skip_recv.add(key)
+            elif h.get("rollempty") and not h["busy"]:
+                # the code forces the EMPTY buffer out before it takes the message (spec/Producer.tla, BpRecvRollsEmpty): an empty
+                # produce request makes a round trip that the model does not have
+                nreq += 1
+                plans[str(nreq)] = {"hold": True, "part": {}}
+                steps += [{"k": "bpsend", "broker": BIDX[h["broker"]], "req": nreq, "ids": {}}, {"k": "handle", "req": nreq},
+                          {"k": "bpresp", "broker": BIDX[h["broker"]], "err": False}]
+        elif a in ("bpsend", "rbsend"):
+            nreq += 1
+            outstanding[h["bp"]] = nreq
+            ids = {str(PIDX[p]): v for p, v in h["ids"].items() if v}
+            steps.append({"k": "bpsend", "broker": BIDX[h["broker"]], "req": nreq, "ids": ids})
+            feat["sends"] += 1
+            if sum(len(v) for v in ids.values()) > 1:
+                feat["multi"] += 1
+        elif a == "handle":
+            n = outstanding.get(h["bp"], 0)
+            plan = {"hold": True, "part": {}}
+            if h["conn"] != "ok":
+                plan["conn"] = h["conn"]
+                feat["faults"] += 1
+            for p, kind in h["kinds"].items():
+                if kind in ("ok", "retry", "retryapp", "fatal"):
+                    plan["part"][str(PIDX[p])] = kind
+                    if kind != "ok":
+                        feat["faults"] += 1
+            plans[str(n)] = plan
+            steps.append({"k": "handle", "req": n})
+        elif a == "bpresp":
+            steps.append({"k": "bpresp", "broker": BIDX[h["broker"]], "err": h["err"]})
+        elif a == "rbstart":
+            steps.append({"k": "rbstart", "part": PIDX[h["part"]]})
+        elif a == "move":
+            steps.append({"k": "move", "part": PIDX[h["part"]], "to": BIDX[h["to"]]})
+    feat["bounces"] = sum(1 for s_ in steps if s_["k"] == "rhdeq")
+    feat["parts"] = len(feat["parts"])
+    return steps, plans, feat
+
+
+def conducted(ctx, key, num, pool=None, depth=400):
+    """role 2 for conducted replay: simulate the model in hook normal form, keep `num` behaviours (those with retry
+    levels, parked messages, late chasers and level jumps first, then at random), and turn each into a scenario
+    whose internal steps the conductor of the Go driver follows at the hook points."""
+    cfgname, dcfg, nmsgs = CONDUCT[key]
+    pool = pool or max(6 * num, 300)
+    r = ctx.tlc("MCProducer", cfgname, workers=1, timeout=600, simulate="num=%d" % pool, depth=depth, seed=ctx.seed, name=key)
+    if r.error and "CONDUCT" not in r.out:
+        ctx.need(r, "behaviour generation " + key)
+    seen = {}
+    for raw in r.printed_raw("CONDUCT"):
+        js = vlib.tla_unquote(raw)
+        if js not in seen:
+            seen[js] = json.loads(js)
+    cands = []
+    for js, hist in seen.items():
+        if sum(1 for h in hist if h["a"] == "submit") < nmsgs:
+            continue
+        steps, plans, feat = conduct_steps(hist)
+        if feat["bounces"] == 0:
+            continue
+        score = 4 * feat["late_fin"] + 3 * feat["jumps"] + 2 * min(feat["parked"], 3) + 2 * (feat["maxhwm"] >= 2) + (feat["parts"] >= 2) + (feat["multi"] > 0)
+        cands.append((score, steps, plans, feat))
+    rnd = random.Random(ctx.seed * 7919 + len(key))
+    rnd.shuffle(cands)
+    cands.sort(key=lambda c_: -c_[0])
+    top = cands[:(num + 1) // 2]
+    rest = cands[(num + 1) // 2:]
+    rnd.shuffle(rest)
+    out = []
+    for score, steps, plans, feat in top + rest[:num - len(top)]:
+        tail = [{"op": "conduct"}, {"op": "wait_outcomes", "n": nmsgs, "ms": 3000}]
+        # epilogue (free-running): the partitions must be back to normal - fresh messages flow and Close returns
+        extra = [(nmsgs + 1 + p_, p_) for p_ in range(len(dcfg["leaders"]))]
+        tail += submits(extra) + [{"op": "wait_outcomes", "n": nmsgs + len(extra), "ms": 3000}, {"op": "close"}]
+        s_ = {"name": "%s#%d" % (key, len(out) + 1), "family": key, "cfg": dict(dcfg), "plans": plans, "steps": tail,
+              "conduct": steps, "gates": []}
+        out.append(s_)
+    return out, r, {"model": key, "simulated": len(seen), "with_retries": len(cands), "behaviours": len(out)}
+
+
+def conduct_stats(trace):
+    """soft numbers of the conducted replay (never part of a verdict): per family how many behaviours were handed to the
+    conductor, how many the real goroutines followed to the end, how many left the behaviour (`unsteered`, free-running
+    from there), steps followed, and the most frequent reasons for leaving"""
+    import re
+    fam, per, whys = {}, {}, {}
+    with open(trace) as f:
+        for line in f:
+            if '"ev":"reset"' in line[:40]:
+                e = json.loads(line)
+                fam[e["t"]] = e.get("family", "-")
+            elif '"ev":"conduct"' in line[:40]:
+                e = json.loads(line)
+                d = per.setdefault(fam.get(e["t"], "-"), dict(conducted=0, followed=0, diverged=0, steps=0, steps_followed=0, ms=0, forced_rh=0))
+                d["conducted"] += 1
+                d["followed" if e["followed"] else "diverged"] += 1
+                d["steps"] += e["steps"]
+                d["steps_followed"] += e["done"]
+                d["ms"] += e["ms"]
+                d["forced_rh"] += e.get("forced", 0)
+                if not e["followed"]:
+                    w = re.sub(r"\d+", "N", e["why"].split(";")[0])[:80]
+                    whys[w] = whys.get(w, 0) + 1
+    for d in per.values():
+        d["avg_ms"] = round(d.pop("ms") / max(1, d["conducted"]), 1)
+    return {"families": per, "left_because": dict(sorted(whys.items(), key=lambda kv_: -kv_[1])[:8])}
+
+
 # ------------------------------------------------------------------ deterministic families
 def sc(name, family, cfg, steps, plans=None, gates=None):
     return {"name": name, "family": family, "cfg": cfg, "plans": plans or {}, "steps": steps, "gates": gates or []}
@@ -684,7 +849,19 @@ def check(ctx, pid, families, mc_cfgs, level="model_checking", extra_assumptions
     """Common body of the producer checks: role 1 model checking, role 2 behaviours + deterministic
     families, execution on the real producer, role 3 validation; verdict from the property's clauses."""
     clauses = CLAUSES[pid]
-    st, tr, det = model_check(ctx, mc_cfgs)
+    # conducted replay: the behaviours are generated (TLC -simulate) while the model checking below runs
+    import concurrent.futures
+    only_conduct = bool(os.environ.get("VERIF_CONDUCT_ONLY"))      # demonstration runs: the conducted families alone
+    if only_conduct:
+        families = [f for f in families if isinstance(f, tuple) and f[0] == "conduct"]
+        mc_cfgs, extra_mc, close_stride = [], [], 0
+    pool = concurrent.futures.ThreadPoolExecutor(max_workers=4)
+    pending = {f: pool.submit(conducted, ctx, f[1], f[2]) for f in families if isinstance(f, tuple) and f[0] == "conduct"}
+    try:
+        st, tr, det = model_check(ctx, mc_cfgs)
+    except BaseException:
+        pool.shutdown(wait=True)
+        raise
     for module, cfg, expect in (extra_mc or []):
         r = ctx.tlc(module, cfg, timeout=1500, name=cfg.replace(".cfg", ""), deadlock=False)
         if expect:
@@ -704,6 +881,9 @@ def check(ctx, pid, families, mc_cfgs, level="model_checking", extra_assumptions
         if isinstance(f, tuple) and f[0] == "gen":
             scs, r = behaviours(ctx, f[1], f[2])
             gen_stats.append({"model": f[1], "behaviours": len(scs)})
+        elif isinstance(f, tuple) and f[0] == "conduct":
+            scs, r, gst = pending[f].result()
+            gen_stats.append(gst)
         else:
             scs = f()
         for s_ in scs:
@@ -717,6 +897,16 @@ def check(ctx, pid, families, mc_cfgs, level="model_checking", extra_assumptions
     viols, stats, trace, cases = run_scenarios(ctx, scenarios, name=pid.lower())
     mine = [v for v in viols if v["clause"] in clauses]
     other = sorted({v["clause"] for v in viols if v["clause"] not in clauses})
+    cstats = {}
+    if any(k.startswith("conduct.") for k in fam_counts):
+        try:
+            cstats = conduct_stats(trace)
+            for k, d in sorted(cstats["families"].items()):
+                ctx.say("CONDUCT family=%s behaviours=%d followed=%d diverged=%d steps=%d/%d avg=%.0fms (soft; a behaviour that is left "
+                        "free-runs and is validated like any other execution)" % (k, d["conducted"], d["followed"], d["diverged"],
+                                                                                  d["steps_followed"], d["steps"], d["avg_ms"]))
+        except Exception as e:   # soft: never fail the check
+            cstats = {"error": str(e)[:200]}
     extra_cov = {}
     if EXTRA:
         mine += EXTRA["viols"]
@@ -734,6 +924,7 @@ def check(ctx, pid, families, mc_cfgs, level="model_checking", extra_assumptions
         "scenarios_by_family": fam_counts,
         "behaviours_from_model": gen_stats,
         "partition_worker_conformance": stats.get("ppconf", {}),
+        "conducted_replay": cstats,
         "real_run_counts": {k: stats.get(k, 0) for k in ("successes", "errors", "appends", "requests", "retried", "gates", "unsteered", "skipped")},
         "clauses": sorted(clauses),
         "clauses_violated_for_other_properties": other,
